@@ -87,6 +87,27 @@ def run(ctx, chk):
                                                            '' if fl is None or not extra else ' -- extra bits %s (e.g. O_NOATIME 0o1000000 makes open(2) fail with EPERM '
                                                            'for a client that does not own the file)' % oct(extra)))
     chk.ob('C16.V2', 'open:open-call-found', bool(seen_open), m.body.where(0), 'open(2) call sites on the client open path: %d' % len(seen_open), nontrivial=False)
+    # one owner per descriptor / mapping on the client open path: wrapping the raw descriptor a guard already owns into a second
+    # owning type (File::from_raw_fd, OwnedFd::from_raw_fd) closes it twice on every path that drops the wrapper -- the
+    # guard's own close then fails (a panic in the caller) or closes an unrelated descriptor
+    n_fd = 0
+    for ob_, bb_, t_, fn_ in common.reachable_calls(fb, m.body):
+        nm_ = mir.callee_name(fn_)
+        if nm_.split('::')[-1] in ('from_raw_fd', 'from_raw_socket') and fb.body(nm_) is None:
+            # fine when the descriptor is fresh (the result of open/dup in the same function: the wrapper is its first owner)
+            fresh = False
+            for q_ in common.mk_engine(fb, no_inline=lambda x: True).run(ob_):
+                for ef_ in q_.effects:
+                    if ef_['kind'] == 'call' and ef_['site'][1] == bb_ and ef_['args']:
+                        fresh = any(y[0] == 't' and y[1] == 'call' and y[2][0].split('::')[-1] in ('open', 'openat', 'open64', 'dup', 'dup2', 'dup3', 'fcntl', 'into_raw_fd')
+                                    for y in psi.walk(ef_['args'][0]))
+            if fresh:
+                continue
+            n_fd += 1
+            chk.ob('C16.V2', 'open:one-owner-per-descriptor:%s' % ob_.path.split('::')[-1], False, ob_.where(bb_),
+                   '%s gives a descriptor it was handed (not one it just opened) a second owner on the client open path' % nm_)
+    chk.ob('C16.V2', 'open:one-owner-per-descriptor', n_fd == 0, m.body.where(0),
+           '%d from_raw_fd call(s) reachable from the client open routine' % n_fd, nontrivial=False)
     # ---- V3 the record pointer is formed only after the size test passed
     for row in m.rows:
         if row['adds']:
